@@ -27,9 +27,9 @@ fn vdp(mu: f64) -> Prob {
 }
 
 fn problems() -> Vec<(Prob, f64)> {
-    // the last one over a span of 1e-6: every max_step of the lattice is then below the absolute
-    // default initial steps of the implicit solvers
-    vec![(base(Base::Decay(-0.01)), 10.0), (base(Base::Harmonic(1.0)), 6.0), (base(Base::Logistic(1.0)), 5.0), (base(Base::Harmonic(1.0)), 1e-6)]
+    // the last two over spans of 1e-6 and 3e-12: every max_step of the lattice is then below the absolute
+    // default initial steps of the implicit solvers, resp. below every absolute time constant of the library
+    vec![(base(Base::Decay(-0.01)), 10.0), (base(Base::Harmonic(1.0)), 6.0), (base(Base::Logistic(1.0)), 5.0), (base(Base::Harmonic(1.0)), 1e-6), (base(Base::Harmonic(1.0)), 3e-12)]
 }
 
 /// abscissa fraction of the first stage evaluated after the initial ones
